@@ -3,65 +3,70 @@ C16: THE property over several blocks — the block loop of `cut` against the bl
 decoder, for streams of stored and fixed-Huffman blocks (`cutLoop_walk`).
 -/
 import WuffsVerif.Proof.Flate.Sim
+import WuffsVerif.Proof.Flate.SingleDict
 
 namespace WuffsVerif.Flate.Cut
 open WuffsVerif.Gen.C16 WuffsVerif.Flate.Spec
 
 /-- The spec decoder on a buffer `s''` that keeps the complete blocks of `s` before bit `p` and whose
 block at `p` is final and decodes (as the block of `B` at `p` does) to `o`, ending at bit `pos'`. -/
-theorem good_final (s B s'' : Bytes) (n p : Nat) (out : Bytes) (pos' : Nat) (o : Bytes)
-    (hr : RReach s n p out) (hblk : BlockAt B p out pos' o)
+theorem good_final (D s B s'' : Bytes) (n p : Nat) (out : Bytes) (pos' : Nat) (o : Bytes)
+    (hr : RReach D s n p out) (hblk : BlockAt B p out pos' o)
     (h1 : ∀ i, i < p → bitAt s'' i = bitAt s i) (h2 : bitAt s'' p = 1)
     (h3 : ∀ i, p + 1 ≤ i → i < pos' → bitAt s'' i = bitAt B i) (hsz : pos' ≤ 8 * s''.size) :
-    Spec.inflate s'' = some (o, (pos' + 7) / 8) := by
+    blocks s'' none 0 (8 * s''.size + 1) 0 D = ⟨.done, pos', o⟩ := by
   obtain ⟨hp3, _, hrob⟩ := hblk
   have hn := hr.prefix
-  have hb : blocks s'' none 0 (8 * s''.size + 1) 0 #[] = ⟨.done, pos', o⟩ := by
-    obtain ⟨f, hf⟩ : ∃ f, 8 * s''.size + 1 = (f + 1) + n := ⟨8 * s''.size - n, by omega⟩
-    rw [hf, hr.run s'' h1 (by omega) (f + 1), blocks_succ]
-    have hav : ¬ (avail s'' p < 3) := by simp only [avail]; omega
-    rw [if_neg hav, hrob s'' h3 hsz]
-    simp only [h2, if_true]
-  simp only [Spec.inflate, Spec.inflateDict, inflateRaw_nodict, hb]
-  simp
+  obtain ⟨f, hf⟩ : ∃ f, 8 * s''.size + 1 = (f + 1) + n := ⟨8 * s''.size - n, by omega⟩
+  rw [hf, hr.run s'' h1 (by omega) (f + 1), blocks_succ]
+  have hav : ¬ (avail s'' p < 3) := by simp only [avail]; omega
+  rw [if_neg hav, hrob s'' h3 hsz]
+  simp only [h2, if_true]
 
 /-- `prev` (`prevFinalBlockIndex/NBits`) against the spec's walk: it points just behind the final-block
 bit of the last completed block. -/
-def PrevInv (s : Bytes) (n p : Nat) (out : Bytes) (prev : Option (Nat × Nat)) : Prop :=
+def PrevInv (D s : Bytes) (n p : Nat) (out : Bytes) (prev : Option (Nat × Nat)) : Prop :=
   match prev with
   | none => n = 0
-  | some (i, nb) => ∃ m p' out', n = m + 1 ∧ nb < 8 ∧ 8 * i - nb = p' + 1 ∧ RReach s m p' out' ∧
+  | some (i, nb) => ∃ m p' out', n = m + 1 ∧ nb < 8 ∧ 8 * i - nb = p' + 1 ∧ RReach D s m p' out' ∧
       bitAt s p' = 0 ∧ BlockAt s p' out' p out
 
-theorem good_of (T enc : Bytes) (e d pos' : Nat) (o x : Bytes) (hT : T = o ++ x) (hd : d = o.size)
-    (he : (pos' + 7) / 8 = e) (h : Spec.inflate (enc.extract 0 e) = some (o, (pos' + 7) / 8)) : Good T enc e d := by
-  refine ⟨?_, by rw [hd, hT]; simp [Array.size_append]⟩
-  rw [h, he, hd, hT, append_extract_left]
+theorem good_of (D T enc : Bytes) (e d pos' : Nat) (o x : Bytes) (hT : T = o ++ x) (hd : D.size + d = o.size)
+    (he : (pos' + 7) / 8 = e)
+    (h : blocks (enc.extract 0 e) none 0 (8 * (enc.extract 0 e).size + 1) 0 D = ⟨.done, pos', o⟩) :
+    GoodD D T enc e d := by
+  refine ⟨⟨pos', ?_, he⟩, by rw [hd, hT]; simp [Array.size_append]⟩
+  rw [h, hd, hT, append_extract_left]
 
 /-- What the assembly needs to know about a dynamic block at bit `p`. -/
-def DynOK (s : Bytes) (p : Nat) (out : Bytes) : Prop :=
+def DynOK (s : Bytes) (k : Nat) (p : Nat) (out : Bytes) : Prop :=
   ∀ (c : Cutter) (p1 : Nat) (out1 : Bytes) (isFirst : Bool), c.OK → c.bits.bytes = s → c.bits.pos = p + 3 →
-    blockBody s none 0 p out = .next p1 out1 → c.decodedLen = (out.size : Int) →
+    blockBody s none 0 p out = .next p1 out1 → c.decodedLen + (k : Int) = (out.size : Int) → 0 ≤ c.decodedLen →
     (out1.size : Int) < 2147483648 →
-    BlockSim s c p out p1 out1 (c.doDynamicHuffman isFirst) ∧ BlockAt s p out p1 out1
+    BlockSim s k c p out p1 out1 (c.doDynamicHuffman isFirst) ∧ BlockAt s p out p1 out1
 
 /-- **The block loop of `cut` against the spec decoder.**  `hdyn`: what is known about dynamic blocks
 (nothing is needed when there are none, see `Cut_nodyn`; `Cut_all` supplies it for all). -/
-theorem cutLoop_walk (s T : Bytes) (n0 : Nat) (hs : Spec.inflate s = some (T, n0))
+theorem cutLoop_walk (D s T : Bytes) (pE0 : Nat)
+    (hs : blocks s none 0 (8 * s.size + 1) 0 D = ⟨.done, pE0, T⟩)
     (hT : (T.size : Int) < 2147483648)
-    (hdyn : ∀ n p out, RReach s n p out → bitsLE s (p + 1) 2 = 2 → DynOK s p out) (m : Nat) (hm2 : 2 ≤ m)
+    (hdyn : ∀ n p out, RReach D s n p out → bitsLE s (p + 1) 2 = 2 → DynOK s D.size p out) (m : Nat) (hm2 : 2 ≤ m)
     (hm : m ≤ s.size) :
     ∀ (fuel n : Nat) (c : Cutter) (prev : Option (Nat × Nat)) (p : Nat) (out : Bytes) (fuelS pE : Nat)
       (enc : Bytes) (e d : Nat),
-    RReach s n p out → c.OK → c.bits.bytes = s → c.bits.pos = p → c.maxEncodedLen = m →
-    c.decodedLen = (out.size : Int) → PrevInv s n p out prev →
+    RReach D s n p out → c.OK → c.bits.bytes = s → c.bits.pos = p → c.maxEncodedLen = m →
+    c.decodedLen + (D.size : Int) = (out.size : Int) → PrevInv D s n p out prev →
     blocks s none 0 fuelS p out = ⟨.done, pE, T⟩ →
-    Cutter.cutLoop fuel c prev = .ok (enc, e, d) → Good T enc e d := by
+    Cutter.cutLoop fuel c prev = .ok (enc, e, d) → GoodD D T enc e d := by
   intro fuel
   induction fuel with
   | zero => intro n c prev p out fuelS pE enc e d _ _ _ _ _ _ _ _ h; simp [Cutter.cutLoop] at h
   | succ fuel ih =>
     intro n c prev p out fuelS pE enc e d hr hc hb hp hcm hcd hprev hspec h
+    obtain ⟨xD, hxD⟩ := hr.extends
+    have hosz : D.size ≤ out.size := by rw [hxD]; simp [Array.size_append]
+    have hc0 : 0 ≤ c.decodedLen := by omega
+    obtain ⟨TD, hTD⟩ := blocks_extends s _ 0 D pE0 T hs
     obtain ⟨fS, p1, out1, rfl, hav, hbody, hfin⟩ := blocks_step s _ p out pE T hspec
     obtain ⟨xT, hxT⟩ := blocks_extends s _ p out pE T hspec
     -- out1 is a prefix of T
@@ -115,7 +120,7 @@ theorem cutLoop_walk (s T : Bytes) (n0 : Nat) (hs : Spec.inflate s = some (T, n0
     generalize hblk : (if bt = 0 then Cutter.doStored { c with bits := bits2 }
         else if bt = 1 then Cutter.doStaticHuffman { c with bits := bits2 } prev.isNone
         else Cutter.doDynamicHuffman { c with bits := bits2 } prev.isNone) = blk at h
-    have hboth : BlockSim s { c with bits := bits2 } p out p1 out1 blk ∧ BlockAt s p out p1 out1 := by
+    have hboth : BlockSim s D.size { c with bits := bits2 } p out p1 out1 blk ∧ BlockAt s p out p1 out1 := by
       rw [← hblk]
       have : bitsLE s (p + 1) 2 = 0 ∨ bitsLE s (p + 1) 2 = 1 ∨ bitsLE s (p + 1) 2 = 2 := by
         have : (2 : Nat) ^ 2 = 4 := by decide
@@ -124,18 +129,18 @@ theorem cutLoop_walk (s T : Bytes) (n0 : Nat) (hs : Spec.inflate s = some (T, n0
       · have : bt = 0 := by rw [t2, hty]; rfl
         rw [this]
         simp only [if_true]
-        exact ⟨stored_blocksim s _ hc2 hy p q2 out p1 out1 hty hbody hcd hT1sz, blockAt_stored s p out p1 out1 hty hbody⟩
+        exact ⟨stored_blocksim s _ hc2 hy p q2 out p1 out1 hty hbody D.size hcd hc0 hT1sz, blockAt_stored s p out p1 out1 hty hbody⟩
       · have : bt = 1 := by rw [t2, hty]; rfl
         rw [this]
         have e10 : ¬ ((1 : Int) = 0) := by omega
         simp only [e10, if_false, if_true]
-        exact ⟨fixed_blocksim s _ hc2 hy p q2 out p1 out1 hty hbody hcd hT1sz _, blockAt_fixed s p out p1 out1 hty hbody⟩
+        exact ⟨fixed_blocksim s _ hc2 hy p q2 out p1 out1 hty hbody D.size hcd hc0 hT1sz _, blockAt_fixed s p out p1 out1 hty hbody⟩
       · have : bt = 2 := by rw [t2, hty]; rfl
         rw [this]
         have e20 : ¬ ((2 : Int) = 0) := by omega
         have e21 : ¬ ((2 : Int) = 1) := by omega
         simp only [e20, e21, if_false]
-        exact hdyn n p out hr hty _ p1 out1 _ hc2 hy q2 hbody hcd hT1sz
+        exact hdyn n p out hr hty _ p1 out1 _ hc2 hy q2 hbody hcd hc0 hT1sz
     obtain ⟨hsim, hblkAt⟩ := hboth
     obtain ⟨c3, err⟩ := blk
     obtain ⟨k1, k2, k3, k4, k5, k6⟩ := hsim
@@ -149,7 +154,7 @@ theorem cutLoop_walk (s T : Bytes) (n0 : Nat) (hs : Spec.inflate s = some (T, n0
       obtain ⟨a1, a2, a3, a4, a5⟩ := k3 rfl
       have a1 : c3.bits.bytes = s := a1
       have a2 : c3.bits.pos = p1 := a2
-      have a3 : c3.decodedLen = (out1.size : Int) := a3
+      have a3 : c3.decodedLen + (D.size : Int) = (out1.size : Int) := a3
       have a5 : c3.OK := a5
       obtain ⟨iu3, pu3⟩ := Inv.unread a5.inv
       rcases hfin with ⟨hf1, hf2, hf3⟩ | ⟨hf0, hcont⟩
@@ -175,9 +180,12 @@ theorem cutLoop_walk (s T : Bytes) (n0 : Nat) (hs : Spec.inflate s = some (T, n0
           show bitAt c3.bits.bytes i = bitAt s i
           rw [a1]
         have hp3 := hblkAt.1
-        have := good_final s s (enc.extract 0 e) n p out p1 out1 hr hblkAt (fun i hi => hbits i (by omega))
+        have := good_final D s s (enc.extract 0 e) n p out p1 out1 hr hblkAt (fun i hi => hbits i (by omega))
           (by rw [hbits p (by omega)]; exact hf1) (fun i _ hi => hbits i hi) (by rw [hsz'']; omega)
-        exact good_of out1 enc e d p1 out1 #[] (by simp) (by rw [f2, a3]; simp) (by omega) this
+        have ho1sz : out.size ≤ out1.size := by
+          obtain ⟨y1, hy1⟩ := hblkAt.2.1
+          rw [hy1]; simp [Array.size_append]
+        exact good_of D out1 enc e d p1 out1 #[] (by simp) (by rw [f2]; omega) (by omega) this
       · -- not final: go on with the next block
         have hfb0' : fb = 0 := by rw [t1, hf0]; rfl
         simp only [hfb0', if_true] at h
@@ -187,13 +195,14 @@ theorem cutLoop_walk (s T : Bytes) (n0 : Nat) (hs : Spec.inflate s = some (T, n0
         exact ⟨n, p, out, rfl, hfbn, hfbp, hr, hf0, hblkAt⟩
     · -- errInternalNoProgress
       have hbs : c3.bits.bytes = s := k5 (Or.inl rfl)
-      have hdl : c3.decodedLen = (out.size : Int) := by
+      have hdl : c3.decodedLen + (D.size : Int) = (out.size : Int) := by
         have : c3.decodedLen = c.decodedLen := k6 rfl
-        rw [this, hcd]
+        rw [this]; exact hcd
       simp only [unread_bytes] at h
       split at h
       · rw [hbs, hk2] at h
-        exact cutSingleBlock_good s T n0 hs m enc e d hm h
+        rw [hTD]
+        exact goodD_of_good D TD enc e d (cutSingleBlock_good_dict D s TD pE0 (by rw [← hTD]; exact hs) m enc e d hm h)
       · rename_i pi pn
         -- a previous block exists: cut before this block, mark the previous block final
         obtain ⟨mm, p', out', hnm, hpn8, hpp, hr', hf0', hblk'⟩ := hprev
@@ -223,14 +232,14 @@ theorem cutLoop_walk (s T : Bytes) (n0 : Nat) (hs : Spec.inflate s = some (T, n0
             rw [g4 i]
             have : 8 * pi - pn - 1 = p' := by omega
             rw [this]
-          have := good_final s s (enc.extract 0 e) mm p' out' p out hr' hblk'
+          have := good_final D s s (enc.extract 0 e) mm p' out' p out hr' hblk'
             (fun i hi => by rw [hbits i (by omega)]; have : ¬ (i = p') := by omega
                             rw [if_neg this])
             (by rw [hbits p' (by omega)]; simp)
             (fun i h1 h2 => by rw [hbits i h2]; have : ¬ (i = p') := by omega
                                rw [if_neg this])
             (by rw [hsz'']; omega)
-          exact good_of T enc e d p out xT hxT (by rw [f2, hdl]; simp) (by omega) this
+          exact good_of D T enc e d p out xT hxT (by rw [f2]; omega) (by omega) this
     · -- errInternalSomeProgress
       obtain ⟨pos', o, b1, b2, b3, b4, b5, ⟨x1, hx1⟩, b7, b8⟩ := k4 rfl
       have b1 : 8 * c3.bits.index - c3.bits.nBits = pos' := b1
@@ -238,7 +247,7 @@ theorem cutLoop_walk (s T : Bytes) (n0 : Nat) (hs : Spec.inflate s = some (T, n0
       have b3 : c3.bits.nBits ≤ 8 := b3
       have b4 : pos' ≤ 8 * m := by have : pos' ≤ 8 * c.maxEncodedLen := b4
                                    rw [hcm] at this; exact this
-      have b5 : c3.decodedLen = (o.size : Int) := b5
+      have b5 : c3.decodedLen + (D.size : Int) = (o.size : Int) := b5
       have b7 : ∀ i, i ≤ p → bitAt c3.bits.bytes i = bitAt s i := b7
       have b8 : BlockAt c3.bits.bytes p out pos' o := b8
       simp only [unread_bytes] at h
@@ -270,27 +279,31 @@ theorem cutLoop_walk (s T : Bytes) (n0 : Nat) (hs : Spec.inflate s = some (T, n0
           rw [g4 i]
           have : 8 * fbi - fbn - 1 = p := by omega
           rw [this]
-        have := good_final s c3.bits.bytes (enc.extract 0 e) n p out pos' o hr b8
+        have := good_final D s c3.bits.bytes (enc.extract 0 e) n p out pos' o hr b8
           (fun i hi => by rw [hbits i (by omega)]; have : ¬ (i = p) := by omega
                           rw [if_neg this, b7 i (by omega)])
           (by rw [hbits p (by omega)]; simp)
           (fun i h1 h2 => by rw [hbits i h2]; have : ¬ (i = p) := by omega
                              rw [if_neg this])
           (by rw [hsz'']; omega)
-        exact good_of T enc e d pos' o (x1 ++ yT) (by rw [hyT, hx1, Array.append_assoc]) (by rw [f2, b5]; simp)
+        have hosz' : out.size ≤ o.size := by
+          obtain ⟨y1, hy1⟩ := b8.2.1
+          rw [hy1]; simp [Array.size_append]
+        exact good_of D T enc e d pos' o (x1 ++ yT) (by rw [hyT, hx1, Array.append_assoc]) (by rw [f2]; omega)
           (by omega) this
     · -- errInternalReplaceWithSingleBlock
       have hbs : c3.bits.bytes = s := k5 (Or.inr rfl)
       simp only [unread_bytes] at h
       rw [hbs, hk2] at h
-      exact cutSingleBlock_good s T n0 hs m enc e d hm h
+      rw [hTD]
+      exact goodD_of_good D TD enc e d (cutSingleBlock_good_dict D s TD pE0 (by rw [← hTD]; exact hs) m enc e d hm h)
     · simp at h
 
 /-- **THE property for every valid stream of stored and fixed-Huffman blocks** (any number of blocks, in
 any order; `hnd` excludes dynamic blocks): `flatecut.Cut`, with or without a writer, any limit. -/
 theorem Cut_nodyn (w : Bool) (s T : Bytes) (n0 : Nat) (limit : Int) (r : CutResult)
     (hs : Spec.inflate s = some (T, n0)) (hT : T.size < 2147483648)
-    (hnd : ∀ n p out, RReach s n p out → bitsLE s (p + 1) 2 ≠ 2) (h : Cut w s limit = .ok r) :
+    (hnd : ∀ n p out, RReach #[] s n p out → bitsLE s (p + 1) 2 ≠ 2) (h : Cut w s limit = .ok r) :
     Spec.inflate (r.encoded.extract 0 r.encodedLen) = some (T.extract 0 r.decodedLen, r.encodedLen) ∧
     r.decodedLen ≤ T.size ∧ (w = true → r.written = T.extract 0 r.decodedLen) := by
   obtain ⟨pE, hblk, _⟩ := inflate_blocks s T n0 hs
@@ -308,10 +321,12 @@ theorem Cut_nodyn (w : Bool) (s T : Bytes) (n0 : Nat) (limit : Int) (r : CutResu
       split at h
       · simp at h
       · rename_i enc eLen dLen hc
-        have hg := cutLoop_walk s T n0 hs (by omega) (fun n p out hr h2 => absurd h2 (hnd n p out hr)) m (by omega) hcl.1 (8 * s.size + 2) 0
-          ⟨⟨s, 0, 0, 0⟩, m, 0, 0, 0, Huffman.zero, Huffman.zero⟩ none 0 #[] (8 * s.size + 1) pE enc eLen dLen
-          RReach.zero ⟨inv_fresh s 0 (Nat.zero_le _), hcl.1, Huffman.zero_shape, Huffman.zero_shape⟩ rfl rfl rfl
-          (by simp) rfl hblk hc
+        have hg := good_of_goodD T enc eLen dLen
+          (cutLoop_walk #[] s T pE hblk (by omega) (fun n p out hr h2 => absurd h2 (hnd n p out hr)) m (by omega) hcl.1
+            (8 * s.size + 2) 0
+            ⟨⟨s, 0, 0, 0⟩, m, 0, 0, 0, Huffman.zero, Huffman.zero⟩ none 0 #[] (8 * s.size + 1) pE enc eLen dLen
+            RReach.zero ⟨inv_fresh s 0 (Nat.zero_le _), hcl.1, Huffman.zero_shape, Huffman.zero_shape⟩ rfl rfl rfl
+            (by simp) rfl hblk hc)
         obtain ⟨hg1, hg2⟩ := hg
         have hio := inflate_some_out _ _ _ hg1
         split at h
